@@ -4,6 +4,7 @@
 #include "vh.h"
 #include <stdlib.h>
 #include "token.h"
+void fix_token_chain_tail(token *t);
 #ifndef K
 #define K 4           /* tokens in the sibling chain */
 #endif
